@@ -486,7 +486,7 @@ def replay_repr(case):
     dets = trials.all_dets(n, na, nb)
     ref = dets[case["ref"]]
     sec = fock.sector(n, na, nb)
-    i = int(case["point"])
+    i = int(case.get("point", 0))  # cases recorded because the library raised carry no grid point
     if case["part"] == "repr-public":
         dc = dense_coeffs(n, na, nb, seed)
         items = lists_for_ref(dets, case["ref"], dc, ("dense",))[0][2]
@@ -515,6 +515,8 @@ def replay_repr(case):
                                         None if ndets is None else int(ndets), tmpdir=tmp)
         except Exception as e:
             return (True, dict(error=repr(e)[:300]))
+    if "point" not in case:
+        return (False, dict(note="the library no longer raises on this list"))
     O = complex(np.asarray(trial._calc_overlap(jnp.asarray(Wa[i]), jnp.asarray(Wb[i]), wd)))
     err = abs(O - Oref[i]) / max(abs(Oref[i]), 1e-3 * np.abs(Oref).max())
     if not np.isfinite(err):
@@ -825,14 +827,14 @@ def job_driver(cfg):
         try:
             e, err, raw = run_driver(sysd, items, cell, seed)
         except Exception as ex:
-            res.violation("driver.afqmc/raises-%s/%s" % (type(ex).__name__, cell["walker_type"]), case, dict(error=repr(ex)[:400]))
+            res.violation("driver.afqmc/raises-%s" % type(ex).__name__, dict(case), dict(error=repr(ex)[:400]))
             continue
         nblk = cell["shape"][3]
         res.add(states=nblk, transitions=nblk + 1, evaluations=nblk + 1, traces=1)
         res.guard("driver_runs")
         res.guard("driver_block_energies", nblk)
         for what, detail in driver_verdict(sysd, cell, seed, e, raw):
-            res.violation("driver.afqmc/%s/%s" % (what, cell["walker_type"]), case, detail)
+            res.violation("driver.afqmc/%s" % what, case, detail)
         weights.append(raw[:, 0])
         res.nontrivial_values((repr(sorted(spec.items())), repr(sorted(cell.items())), int(seed)), raw[:, 0], 6)
     if weights:
